@@ -351,10 +351,13 @@ def _rm_ens(S, a, r):
 def _rm_gen(rng, tier):
     strax = _strax()
     dt = strax.peak_dtype(n_channels=2, n_sum_wv_samples=4)
-    for _ in range(400 if tier == "quick" else 30000):
+    for it in range(600 if tier == "quick" else 30000):
         n = rng.randint(1, 7)
         orig = np.zeros(n, dtype=dt)
         t = 0
+        # sampling width: 1 for a third of the cases, otherwise 2 or 3 - the merged peak built below then ends on the grid of
+        # that width, i.e. possibly BEFORE the end of its last constituent (as merge_peaks' flooring does)
+        width = 1 if it % 3 == 0 else rng.choice((2, 3))
         for k in range(n):
             t += rng.randint(0, 4)
             ln = rng.randint(1, 4)
@@ -372,18 +375,89 @@ def _rm_gen(rng, tier):
         merge = np.zeros(len(merged), dtype=dt)
         for j, (s, e) in enumerate(merged):
             merge[j]["time"] = orig[s]["time"]
-            merge[j]["dt"] = 1
-            merge[j]["length"] = strax.endtime(orig[e:e + 1])[0] - orig[s]["time"]
+            span = int(strax.endtime(orig[e:e + 1])[0] - orig[s]["time"])
+            merge[j]["dt"] = width
+            merge[j]["length"] = max(1, span // width)
             merge[j]["area"] = 100 + j
-        if len(merge):
+        # keep the case only if every merged peak still touches all its constituents and nothing else (the premise under which
+        # "replace" is defined); shortened merged peaks that stop before their last constituent starts are left out
+        ok = True
+        me = strax.endtime(merge)
+        for j, (s_, e_) in enumerate(merged):
+            if me[j] <= orig[e_]["time"]:
+                ok = False
+        if len(merge) and ok:
             yield dict(orig=orig, merge=merge)
+
+
+def _rm_wrapper_native(i):
+    """the real wrapper, with the kernel run as plain Python: numba does no bounds checking, so skip windows that do not fit (a
+    changed wrapper) would corrupt memory in the compiled kernel instead of raising; the compiled kernel has its own replay scope"""
+    import strax.processing.peak_merging as pm
+    jit = pm._replace_merged
+    pm._replace_merged = getattr(jit, "py_func", jit)
+    try:
+        return pm.replace_merged(i["orig"], i["merge"])
+    finally:
+        pm._replace_merged = jit
 
 
 replace_merged = Contract(
     FM, "replace_merged", params=dict(orig=RowsT(), merge=RowsT()), ensures=_rm_ens, raises={},
-    harness=Harness(native=lambda i: _strax().replace_merged(i["orig"], i["merge"]), gen=_rm_gen,
-                    scope="random disjoint peak lists of 1..7 peaks with merged runs of 2..3 consecutive peaks",
+    harness=Harness(native=lambda i: _rm_wrapper_native(i), gen=_rm_gen,
+                    scope="random disjoint peak lists of 1..7 peaks with merged runs of 2..3 consecutive peaks; merged peaks sampled 1, 2 or 3 ns wide and "
+                          "floored to that grid (so they may end before their last constituent does)",
                     nontrivial=lambda i: len(i["orig"]) >= 2))
+
+
+# ---- find_peak_groups: groups of intervals = gap-threshold clusters whatever the peaks' areas ------------------------------
+def _fpg_ens(S, a, r):
+    strax = _strax()
+    peaks = a.peaks.arr
+    t, e = r
+    t, e = np.asarray(t.arr if hasattr(t, "arr") else t), np.asarray(e.arr if hasattr(e, "arr") else e)
+    pe = strax.endtime(peaks)
+    groups, cur_start, cur_end = [], None, None
+    for k in range(len(peaks)):
+        if cur_start is None:
+            cur_start, cur_end = int(peaks[k]["time"]), int(pe[k])
+        elif int(peaks[k]["time"]) - cur_end >= a.gap_threshold:
+            groups.append((cur_start, cur_end))
+            cur_start, cur_end = int(peaks[k]["time"]), int(pe[k])
+        else:
+            cur_end = max(cur_end, int(pe[k]))
+    if cur_start is not None:
+        groups.append((cur_start, cur_end))
+    want_t = [g[0] - a.left_extension for g in groups]
+    want_e = [g[1] + a.right_extension for g in groups]
+    return [("the groups are exactly the gap-threshold clusters of the intervals (no cut on area or channels), each from its first "
+             "start minus the left extension to its last end plus the right extension",
+             list(map(int, t)) == want_t and list(map(int, e)) == want_e)]
+
+
+def _fpg_gen(rng, tier):
+    strax = _strax()
+    dt = strax.peak_dtype(n_channels=2, n_sum_wv_samples=4)
+    for it in range(300 if tier == "quick" else 20000):
+        n = rng.randint(1, 6)
+        p = np.zeros(n, dtype=dt)
+        t = 0
+        for k in range(n):
+            t += rng.choice((0, 1, 2, 5, 9))
+            ln = rng.randint(1, 4)
+            p[k]["time"], p[k]["length"], p[k]["dt"] = t, ln, 1
+            p[k]["area"] = rng.choice((-2.0, -1.0, 0.0, 1.0, 2.5))
+            t += ln
+        le, re_ = rng.choice(((0, 0), (1, 1), (0, 2)))
+        yield dict(peaks=p, gap_threshold=rng.choice((le + re_ + 1, 4, 6)), left_extension=le, right_extension=re_)
+
+
+find_peak_groups = Contract(
+    FB, "find_peak_groups", params=dict(peaks=RowsT(), gap_threshold="int", left_extension="int", right_extension="int"),
+    ensures=_fpg_ens, raises={},
+    harness=Harness(native=lambda i: _strax().find_peak_groups(i["peaks"], i["gap_threshold"], i["left_extension"], i["right_extension"]),
+                    gen=_fpg_gen, scope="random disjoint peak lists of 1..6 peaks with areas in {-2,-1,0,1,2.5}, gaps 0..9, extensions (0,0),(1,1),(0,2), "
+                                        "no duration cut", nontrivial=lambda i: len(i["peaks"]) >= 2))
 
 
 # ---- peak splitting: children tile the parent --------------------------------------------------------
@@ -682,7 +756,11 @@ def _rmk_native(py):
     def run(i):
         import strax.processing.peak_merging as pm
         f = pm._replace_merged
-        (getattr(f, "py_func", f) if py else f)(i["result"], i["orig"], i["merge"], i["skip_windows"])
+        pyf = getattr(f, "py_func", f)
+        if not py:
+            # memory safety of the harness: the compiled kernel (no bounds checks) only runs where the Python semantics do not raise
+            pyf(i["result"].copy(), i["orig"], i["merge"], i["skip_windows"])
+        (pyf if py else f)(i["result"], i["orig"], i["merge"], i["skip_windows"])
         return None
     return run
 
